@@ -144,3 +144,121 @@ fn c01_cyclic_type_evidence_terminates() {
     }
     println!("CASES c01_cyclic {n}");
 }
+
+// ---------------------------------------------------------------------------------------------
+// structured, stack-balanced storage idioms in random sequences: the whole pipeline must never panic
+fn p1(b: u8) -> Vec<u8> { vec![0x60, b] }
+fn pw(w: ethnum::U256) -> Vec<u8> {
+    let bytes = w.to_be_bytes();
+    let first = bytes.iter().position(|b| *b != 0).unwrap_or(31);
+    let mut v = vec![0x60 + (31 - first) as u8];
+    v.extend(&bytes[first..]);
+    v
+}
+/// a snippet that leaves one word on the stack
+fn value(rng: &mut Rng, slot: &ethnum::U256) -> Vec<u8> {
+    match rng.below(9) {
+        0 => vec![0x33],                                   // CALLER
+        1 => vec![0x30],                                   // ADDRESS
+        2 => { let mut v = vec![0x36, 0x15]; if rng.below(2) == 0 { v.push(0x15); } v }   // ISZERO(CALLDATASIZE)
+        3 => { let mut v = p1((rng.below(4) * 32) as u8); v.push(0x35); v }               // CALLDATALOAD(c)
+        4 => pw(ethnum::U256::new(rng.below(300) as u128)),
+        5 => { let mut v = pw(*slot); v.push(0x54); v }                                    // SLOAD(slot)
+        6 => { let mut v = pw(*slot); v.push(0x54); v.extend(pw((ethnum::U256::ONE << (8 * (1 + rng.below(31)) as u32)) - ethnum::U256::ONE)); v.push(0x16); v }   // SLOAD & lowmask
+        7 => vec![0x42],                                   // TIMESTAMP
+        _ => { let mut v = vec![0x34]; v.extend(p1(1)); v.push(0x01); v }                  // CALLVALUE + 1
+    }
+}
+/// a snippet that leaves a storage key on the stack
+fn key(rng: &mut Rng, slot: &ethnum::U256) -> Vec<u8> {
+    match rng.below(7) {
+        0 | 1 => pw(*slot),
+        2 => {
+            // mapping: keccak(value ++ slot) [+ c]
+            let mut v = value(rng, slot);
+            v.extend([0x5f, 0x52]);
+            v.extend(pw(*slot));
+            v.extend([0x60, 0x20, 0x52, 0x60, 0x40, 0x5f, 0x20]);
+            if rng.below(3) == 0 { v.extend(pw(ethnum::U256::new(1 + rng.below(3) as u128))); v.push(0x01); }
+            v
+        }
+        3 => {
+            // dynamic array: keccak(mem[0..size]) + index, with odd pre-image sizes too
+            let size = [0u8, 1, 31, 32, 33, 64, 96][rng.below(7) as usize];
+            let mut v = pw(*slot);
+            v.extend([0x5f, 0x52]);
+            v.extend(p1(size));
+            v.extend([0x5f, 0x20]);
+            v.extend(value(rng, slot));
+            v.push(0x01);
+            v
+        }
+        4 => {
+            // nested mapping
+            let mut v = value(rng, slot);
+            v.extend([0x5f, 0x52]);
+            v.extend(pw(*slot));
+            v.extend([0x60, 0x20, 0x52, 0x60, 0x40, 0x5f, 0x20, 0x60, 0x20, 0x52, 0x33, 0x5f, 0x52, 0x60, 0x40, 0x5f, 0x20]);
+            v
+        }
+        5 => { let mut v = pw(*slot); v.extend(value(rng, slot)); v.push(0x01); v }        // slot + value
+        _ => value(rng, slot),                                                             // fully symbolic key
+    }
+}
+fn idiom(rng: &mut Rng, slots: &[ethnum::U256]) -> Vec<u8> {
+    let slot = slots[rng.below(slots.len() as u64) as usize];
+    let mut v = vec![];
+    match rng.below(8) {
+        0 | 1 => { v.extend(value(rng, &slot)); v.extend(key(rng, &slot)); v.push(0x55); }                 // sstore(key, value)
+        2 => { v.extend(key(rng, &slot)); v.extend([0x54, 0x50]); }                                           // sload(key); pop
+        3 => {
+            // in-place partial clear / keep: sstore(k, and(sload(k), mask))
+            let w = 8 * (1 + rng.below(31)) as u32;
+            let mask = if rng.below(2) == 0 { (ethnum::U256::ONE << w) - ethnum::U256::ONE } else { !((ethnum::U256::ONE << w) - ethnum::U256::ONE) };
+            v.extend(pw(mask)); v.extend(pw(slot)); v.push(0x54); v.push(0x16); v.extend(pw(slot)); v.push(0x55);
+        }
+        4 => {
+            // packed field write: sstore(k, or(and(sload(k), not(mask << s)), shl(s, and(value, mask))))
+            let w = 8 * (1 + rng.below(20)) as u32;
+            let sft = 8 * rng.below(32) as u32;
+            let mask = (ethnum::U256::ONE << w) - ethnum::U256::ONE;
+            v.extend(pw(!(mask << sft))); v.extend(pw(slot)); v.push(0x54); v.push(0x16);
+            v.extend(pw(mask)); v.extend(value(rng, &slot)); v.push(0x16); v.extend(pw(ethnum::U256::new(sft as u128))); v.push(0x1b);
+            v.push(0x17); v.extend(pw(slot)); v.push(0x55);
+        }
+        5 => {
+            // field read: and(shr(s, sload(k)), mask) stored elsewhere
+            let w = 8 * (1 + rng.below(20)) as u32;
+            v.extend(pw((ethnum::U256::ONE << w) - ethnum::U256::ONE)); v.extend(pw(slot)); v.push(0x54); v.extend(pw(ethnum::U256::new(8 * rng.below(40) as u128))); v.push(0x1c); v.push(0x16);
+            v.extend(key(rng, &slot)); v.push(0x55);
+        }
+        6 => { v.extend(value(rng, &slot)); v.extend(key(rng, &slot)); v.push(0x54); v.push(0x01); v.extend(key(rng, &slot)); v.push(0x55); }   // s[k2] = s[k1] + v
+        _ => { v.extend(p1((rng.below(3) * 32) as u8)); v.extend(p1(0)); v.extend(p1((rng.below(3) * 32) as u8)); v.push(0x37); }   // calldatacopy
+    }
+    v
+}
+
+fn run_idioms(seed: u64, n: u64) {
+    use std::io::Write;
+    std::panic::set_hook(Box::new(|_| {}));
+    let slots = [ethnum::U256::ZERO, ethnum::U256::ONE, ethnum::U256::new(2), ethnum::U256::new(1 << 64), ethnum::U256::MAX];
+    let mut rng = Rng::seeded(seed);
+    for _ in 0..n {
+        let mut code = vec![];
+        let used = &slots[..(1 + rng.below(3) as usize)];
+        for _ in 0..1 + rng.below(5) { code.extend(idiom(&mut rng, used)); }
+        code.push(0x00);
+        println!("RUNNING c01_idioms {code:02x?}");
+        std::io::stdout().flush().ok();
+        if let Out::Panic = analyze(&code, rng.below(2) == 0) {
+            witness("C01", "analyze.panic.storage_idioms", format!("{code:02x?}"), "PANIC".into(), "layout or error".into());
+        }
+    }
+    println!("CASES c01_idioms_{seed} {n}");
+}
+#[test] fn c01_storage_idiom_sequences_a() { run_idioms(101, 60 * scale()); }
+#[test] fn c01_storage_idiom_sequences_b() { run_idioms(102, 60 * scale()); }
+#[test] fn c01_storage_idiom_sequences_c() { run_idioms(103, 60 * scale()); }
+#[test] fn c01_storage_idiom_sequences_d() { run_idioms(104, 60 * scale()); }
+#[test] fn c01_storage_idiom_sequences_e() { run_idioms(105, 60 * scale()); }
+#[test] fn c01_storage_idiom_sequences_f() { run_idioms(106, 60 * scale()); }
